@@ -42,6 +42,7 @@ def setup(ctx):
     ctx.require("monitor", "upstream_lines_checked", 150)
     ctx.require("monitor", "socket_events_checked", 150)
     ctx.require("monitor", "static_routed", 20)
+    ctx.require("monitor", "forwarded_grey_lines_checked", 20)
 
 
 class ProxyWorld:
@@ -220,6 +221,9 @@ def gen_request(rng, world, cfg, srv_port):
         ("pct-encoded-unicode", f"gemini://{host}{pfx}caf%C3%A9?x=%E4%B8%AD"),
         ("empty-query", f"gemini://{host}{pfx}x?"),
         ("space-in-path", f"gemini://{host}{pfx}a b"),
+        ("trailing-space-path", f"gemini://{host}{pfx}a/b" + rng.choice([" ", "  ", "\u00a0", "\u3000", "\u2003"])),
+        ("trailing-space-query", f"gemini://{host}{pfx}a?q=1" + rng.choice([" ", "  ", "\u00a0", "\u3000", "\u0085" if False else "\u2003"])),
+        ("inner-and-trailing-space", f"gemini://{host}{pfx}a b ?c d "),
     ]
     return rng.choice(feats)[::-1] if False else (lambda f: (f[1], f[0]))(rng.choice(feats))
 
@@ -272,6 +276,21 @@ def run(ctx):
                     if verdict != "accept":
                         if up_recs and verdict == "reject":
                             ctx.violation(f"invalid-request-proxied:feature={feat}", "a must-reject request line was forwarded upstream", wit)
+                        # a line the server is free to refuse (characters outside the URI alphabet) but chose to forward:
+                        # what it forwards is still base + the client's path + the client's query, nothing dropped
+                        if (verdict == "undecided" and info == "chars-outside-uri-alphabet" and len(up_recs) == 1 and scheme == "gemini" and fragment is None
+                                and not any(ord(ch) < 0x20 or ord(ch) == 0x7F for ch in line) and expected_route(cfg, locs, path) == "proxy"):
+                            got = (up_recs[0].get("request_line") or b"").decode("utf-8", "replace")
+                            loc = matched_location(locs, path)
+                            mp = map_path({"prefix": loc["prefix"], "strip": loc.get("strip_prefix", False)}, path)
+                            base_path = loc["upstream"].split("://", 1)[1].partition("/")[2]
+                            exp = f"gemini://127.0.0.1:{world.upstream.port}{('/' + base_path).rstrip('/') if base_path else ''}{mp}" + (f"?{query}" if query else "")
+                            ctx.count("monitor", "forwarded_grey_lines_checked")
+                            g = uri.split_rfc3986(got)
+                            e = uri.split_rfc3986(exp)
+                            if (g[2] or "/") != (e[2] or "/") or (g[3] or "") != (e[3] or ""):
+                                ctx.violation(f"forwarded-line-altered:feature={feat}", f"the server forwarded this request, but upstream got path {g[2]!r} query {g[3]!r}; base + client path + query is {e[2]!r} / {e[3]!r}",
+                                              dict(wit, expected_line=exp))
                         ctx.undecided(f"request-not-must-accept:{info if isinstance(info, str) else feat}")
                         ctx.case((shape, feat, "grey", status), True)
                         continue
